@@ -15,7 +15,7 @@ Theorem query_cables_all_spec s (W : QWF s) o fuel it rec pats res :
   NoDup res /\
   forall e, In e res <->
     ((exists d, lead_defs s it d /\ par s RCables e = Some d) \/ cables_all s it e) /\
-    (sel_match (q_case o) (q_re o) (key_of s (q_key o)) pats e = true /\ q_cb o e = true).
+    (sel_match (q_case o) (q_re o) (key_of s (q_key o)) (fold_of s (q_key o)) pats e = true /\ q_cb o e = true).
 Proof.
   intros HL Hp H. unfold query_cables in H. destruct (two_stage_ok _ _ _ _ _ _ _ _ H) as (ps & os & E). rewrite E in H. split.
   - apply (two_stage_NoDup s o false BNames RCables ps os pats res). exact H.
